@@ -36,10 +36,11 @@ def no_child(*names):
 
 
 unpack_value_null_c = Contract(
-    P + 'unpack_value', returns=Opt(Ref('value')), raises=PARSE_ERR, trusted=True,
+    P + 'unpack_value', returns=Opt(Ref('value')), raises=PARSE_ERR,
     ensures=[('no-value-child-means-NULL',
               "implies(forall(lambda k: tup_tree[2][k][0] != 'VALUE' and tup_tree[2][k][0] != 'VALUE.ARRAY', 0, "
-              "len(tup_tree[2])), result is None)")])
+              "len(tup_tree[2])), result is None)")],
+    notes='proved at the end of this file (unpack_value[no value child])')
 list_of_matching_c = Contract(P + 'list_of_matching', returns=ListOf('ref'), raises=PARSE_ERR, trusted=True,
                               notes='children of the listed kinds, each parsed by its parse_ function')
 parse_emb_c = Contract(P + 'parse_embeddedObject', returns=Opt(Ref('object')),
@@ -100,10 +101,11 @@ CONTRACTS.append(Contract(
 
 # ---- PROPERTY.REFERENCE
 value_reference_list_c = Contract(
-    P + 'list_of_matching', returns=ListOf('ref'), raises=PARSE_ERR, trusted=True,
+    P + 'list_of_matching', returns=ListOf('ref'), raises=PARSE_ERR,
     ensures=[('no-matching-child-means-empty',
               "implies(forall(lambda k: tup_tree[2][k][0] not in matched, 0, len(tup_tree[2])), len(result) == 0)")],
-    notes='children of the listed kinds, each parsed by its parse_ function')
+    notes="proved at the end of this file (list_of_matching[matched=('VALUE.REFERENCE',)] and [matched=('QUALIFIER',)], "
+          "the two calls in parse_property_reference)")
 NO_RAISE = ('the function does not catch TypeError/ValueError of this constructor call: with type reference and the value of a '
             'VALUE.REFERENCE child the constructor is assumed not to raise (exception escape is the subject of C02)')
 property_reference_init_c = Contract(
@@ -168,7 +170,7 @@ CONTRACTS.append(parameter_contract(
 method_init_c = Contract(
     O + 'CIMMethod.__init__', trusted=True, raises=INIT_ERR,
     requires=[('name-from-the-attribute', f"name == {A}['NAME']"),
-              ('TYPE-is-the-return-type', f"'TYPE' in {A} and return_type == {A}['TYPE']"),
+              ('TYPE-optional-is-the-return-type', optional('return_type', 'TYPE')),
               ('CLASSORIGIN-optional', optional('class_origin', 'CLASSORIGIN')),
               ('PROPAGATED-default-false', flavor('propagated', 'PROPAGATED', False))])
 CONTRACTS.append(Contract(
@@ -179,43 +181,242 @@ CONTRACTS.append(Contract(
     ensures=[('a-CIMMethod', 'isinstance(result, CIMMethod)')],
     raises=PARSE_ERR))
 
-# ---- QUALIFIER.DECLARATION
+# ---- QUALIFIER.DECLARATION  (SCOPE?, (VALUE | VALUE.ARRAY)?)
+# The function visits the children in a loop and asserts that a value child is met only once; that this assertion
+# cannot fail needs three universally quantified facts about the children (check_node: only the allowed kinds;
+# unpack_value: at most one value child; the loop invariant), and with those in the path condition every feasibility
+# query runs into its time limit (> 15 min for the function).  The DTD allows at most two children, so the contract
+# is stated for nodes with none, one and two child elements (children given as a Python tuple of that length: the loop
+# is then executed, not cut at an invariant) - three or more children always end in CIMXMLParseError (C02's subject).
+CHILD = TupleOf(Str, Ref('dict'), Ref('list'))
 parse_any_scope_c = Contract(P + 'parse_any', returns=Ref('NocaseDict'), raises=PARSE_ERR, trusted=True,
                              notes='the SCOPE child, parsed by parse_scope')
-NO_VALUE_CHILD = no_child('VALUE', 'VALUE.ARRAY').replace('caller_', '')
-VALUEISH = "(tup_tree[2][{0}][0] == 'VALUE' or tup_tree[2][{0}][0] == 'VALUE.ARRAY')"
-unpack_value_qd_c = Contract(
-    P + 'unpack_value', returns=Opt(Ref('value')), raises=PARSE_ERR, trusted=True,
-    ensures=[('no-value-child-means-NULL',
-              "implies(forall(lambda k: tup_tree[2][k][0] != 'VALUE' and tup_tree[2][k][0] != 'VALUE.ARRAY', 0, "
-              "len(tup_tree[2])), result is None)"),
-             ('at-most-one-value-child',
-              "forall(lambda j: forall(lambda k: implies(" + VALUEISH.format('j') + " and " + VALUEISH.format('k') +
-              ", j == k), 0, len(tup_tree[2])), 0, len(tup_tree[2]))")],
-    notes='more than one VALUE / VALUE.ARRAY child raises CIMXMLParseError')
-qualifier_declaration_init_c = Contract(
-    O + 'CIMQualifierDeclaration.__init__', trusted=True, raises=INIT_ERR,
-    requires=[('name-and-type-from-the-attributes', f"name == {A}['NAME'] and type == {A}['TYPE']"),
-              ('ISARRAY-default-false', flavor('is_array', 'ISARRAY', False)),
-              ('ARRAYSIZE-optional-as-integer', ARRAYSIZE),
-              ('OVERRIDABLE-default-true', flavor('overridable', 'OVERRIDABLE', True)),
-              ('TOSUBCLASS-default-true', flavor('tosubclass', 'TOSUBCLASS', True)),
-              ('TOINSTANCE-default-false', flavor('toinstance', 'TOINSTANCE', False)),
-              ('TRANSLATABLE-default-false', flavor('translatable', 'TRANSLATABLE', False)),
-              ('no-SCOPE-child-means-no-scopes', f"implies({no_child('SCOPE')}, scopes is None)"),
-              ('no-value-child-means-NULL', f"implies({no_child('VALUE', 'VALUE.ARRAY')}, value is None)")])
+
+
+def qualifier_declaration_contract(n):
+    kid = [f'tup_tree[2][{k}][0]' for k in range(n)]
+    ckid = ['caller_' + x for x in kid]
+    valueish = [f"({x} == 'VALUE' or {x} == 'VALUE.ARRAY')" for x in kid]
+    check_node_c = Contract(
+        P + 'check_node', raises=PARSE_ERR,
+        ensures=[('required-attributes-present', "'NAME' in tup_tree[1] and 'TYPE' in tup_tree[1]"),
+                 ('only-allowed-child-elements', ' and '.join(f"{x} in ('SCOPE', 'VALUE', 'VALUE.ARRAY')" for x in kid) or 'True')],
+        notes='QUALIFIER.DECLARATION line: the general mechanism is proved under C02 for the QUALIFIER line '
+              '(check_node[QUALIFIER line]: required-attributes-present, only-allowed-child-elements) and assumed for this line')
+    unpack_value_c_ = Contract(
+        P + 'unpack_value', returns=Opt(Ref('value')), raises=PARSE_ERR, trusted=True,
+        ensures=[('no-value-child-means-NULL', f"implies(not ({' or '.join(valueish) or 'False'}), result is None)"),
+                 ('at-most-one-value-child', ' and '.join(f'not ({a} and {b})' for i, a in enumerate(valueish)
+                                                          for b in valueish[i + 1:]) or 'True')],
+        notes='more than one VALUE / VALUE.ARRAY child raises CIMXMLParseError')
+    init_c = Contract(
+        O + 'CIMQualifierDeclaration.__init__', trusted=True, raises=INIT_ERR,
+        requires=[('name-and-type-from-the-attributes', f"name == {A}['NAME'] and type == {A}['TYPE']"),
+                  ('ISARRAY-default-false', flavor('is_array', 'ISARRAY', False)),
+                  ('ARRAYSIZE-optional-as-integer', ARRAYSIZE),
+                  ('OVERRIDABLE-default-true', flavor('overridable', 'OVERRIDABLE', True)),
+                  ('TOSUBCLASS-default-true', flavor('tosubclass', 'TOSUBCLASS', True)),
+                  ('TOINSTANCE-default-false', flavor('toinstance', 'TOINSTANCE', False)),
+                  ('TRANSLATABLE-default-false', flavor('translatable', 'TRANSLATABLE', False)),
+                  ('no-SCOPE-child-means-no-scopes',
+                   f"implies({' and '.join(x + ' != ' + repr('SCOPE') for x in ckid) or 'True'}, scopes is None)"),
+                  ('a-SCOPE-child-means-scopes',
+                   f"implies({' or '.join(x + ' == ' + repr('SCOPE') for x in ckid) or 'False'}, scopes is not None)"),
+                  ('no-value-child-means-NULL',
+                   "implies(" + (' and '.join(f"{x} != 'VALUE' and {x} != 'VALUE.ARRAY'" for x in ckid) or 'True') +
+                   ", value is None)")])
+    return Contract(
+        P + 'parse_qualifier_declaration', label=('no child element', 'one child element', 'two child elements')[n],
+        params={'self': TP, 'tup_tree': TupleOf(Str, MapOf('str', 'str'), TupleOf(*[CHILD] * n))},
+        requires=[ARRAYSIZE_IS_DECIMAL],
+        callees={'check_node': check_node_c, 'unpack_value': unpack_value_c_, 'unpack_boolean': unpack_boolean_c,
+                 'parse_any': parse_any_scope_c, 'CIMQualifierDeclaration.__init__': init_c},
+        opaque=['CIMQualifierDeclaration'],
+        ensures=[('a-CIMQualifierDeclaration', 'isinstance(result, CIMQualifierDeclaration)')],
+        raises=PARSE_ERR, max_paths=2000)
+
+
+for _n in (0, 1, 2):
+    CONTRACTS.append(qualifier_declaration_contract(_n))
+
+# ---- KEYVALUE: VALUETYPE (string | boolean | numeric) "string", TYPE optional and decisive when present
+PNODE = TupleOf(Str, MapOf('str', 'str'), ListOf('str'))     # an element with character data only
+KEYVALUE_TYPE = [
+    ('TYPE-decides-when-present', f"implies('TYPE' in {A} and {A}['TYPE'] != '', cimtype == {A}['TYPE'])"),
+    ('VALUETYPE-default-string', f"implies('TYPE' not in {A} and 'VALUETYPE' not in {A}, cimtype == 'string')"),
+    ('VALUETYPE-string-and-boolean-name-the-type',
+     f"implies('TYPE' not in {A} and 'VALUETYPE' in {A} and {A}['VALUETYPE'] == 'string', cimtype == 'string') and "
+     f"implies('TYPE' not in {A} and 'VALUETYPE' in {A} and {A}['VALUETYPE'] == 'boolean', cimtype == 'boolean')"),
+    ('VALUETYPE-numeric-leaves-the-type-open',
+     f"implies('TYPE' not in {A} and 'VALUETYPE' in {A} and {A}['VALUETYPE'] == 'numeric', cimtype is None)")]
+
+
+def unpack_single_value_c(requires):
+    return Contract(P + 'unpack_single_value', returns=Opt(Ref('value')), raises=PARSE_ERR, trusted=True,
+                    requires=requires, returns_ghost='v',
+                    notes='typed-value layer: under C02 (unpack_single_value) and C01 (leaf codecs)')
+
+
 CONTRACTS.append(Contract(
-    P + 'parse_qualifier_declaration', params={'self': TP, 'tup_tree': TNODE},
-    requires=[ARRAYSIZE_IS_DECIMAL],
-    callees={'check_node': check_node_for('QUALIFIER.DECLARATION', ('NAME', 'TYPE'), ('SCOPE', 'VALUE', 'VALUE.ARRAY')), 'unpack_value': unpack_value_qd_c,
-             'unpack_boolean': unpack_boolean_c, 'parse_any': parse_any_scope_c,
-             'CIMQualifierDeclaration.__init__': qualifier_declaration_init_c},
-    opaque=['CIMQualifierDeclaration'],
-    loops={1: LoopSpec(target='child', types={'scopes': Opt(Ref('NocaseDict')), 'value': Opt(Ref('value'))},
-                       invariant=[('no-SCOPE-child-so-far-means-no-scopes',
-                                   "implies(forall(lambda k: tup_tree[2][k][0] != 'SCOPE', 0, _i), scopes is None)"),
-                                  ('no-value-child-means-NULL', f"implies({NO_VALUE_CHILD}, value is None)"),
-                                  ('after-the-value-child-only-SCOPE-children',
-                                   "implies(value is not None, forall(lambda k: tup_tree[2][k][0] == 'SCOPE', _i, len(tup_tree[2])))")])},
-    ensures=[('a-CIMQualifierDeclaration', 'isinstance(result, CIMQualifierDeclaration)')],
+    P + 'parse_keyvalue', params={'self': TP, 'tup_tree': PNODE}, ghosts={'v': Opt(Ref('value'))},
+    callees={'check_node': check_node_for('KEYVALUE', ()), 'unpack_single_value': unpack_single_value_c(KEYVALUE_TYPE)},
+    ensures=[('the-decoded-value-is-returned', 'result is v')],
+    raises=PARSE_ERR))
+# the character data may arrive in several chunks (SAX): they are concatenated in order, nothing added or stripped.
+# str.join over a list of symbolic length is an opaque string in the engine, so the statement is made for a node
+# whose text arrives in two chunks (one chunk: the second is empty)
+CONTRACTS.append(Contract(
+    P + 'parse_keyvalue', label='character data in two chunks',
+    params={'self': TP, 'tup_tree': TupleOf(Str, MapOf('str', 'str'), TupleOf(Str, Str))}, ghosts={'v': Opt(Ref('value'))},
+    callees={'check_node': check_node_for('KEYVALUE', ()), 'unpack_single_value': unpack_single_value_c(
+        [('the-character-data-is-the-value-text', "data == caller_tup_tree[2][0] + caller_tup_tree[2][1]")])},
+    ensures=[('the-decoded-value-is-returned', 'result is v')],
+    raises=PARSE_ERR))
+
+# ---- KEYBINDING: one entry, the NAME attribute -> the value of the KEYVALUE / VALUE.REFERENCE child
+one_child_c = Contract(P + 'one_child', returns=Ref('value'), raises=PARSE_ERR, trusted=True, returns_ghost='kv',
+                       requires=[('the-child-of-this-element', 'tup_tree == caller_tup_tree')],
+                       notes='exactly one child of the listed kinds, parsed by its parse_ function')
+# engine limit for a symbolic NAME ("dict literal with symbolic key"): the statement is made for one literal name
+CONTRACTS.append(Contract(
+    P + 'parse_keybinding', label="NAME='CreationClassName'",
+    params={'self': TP, 'tup_tree': TupleOf(Str, Rec(NAME=Lit('CreationClassName')), ListOf(('tuple', 'str', ('ref', 'dict'), ('ref', 'list'))))},
+    ghosts={'kv': Ref('value')},
+    callees={'check_node': check_node_for('KEYBINDING', ('NAME',)), 'one_child': one_child_c},
+    ensures=[('one-entry-under-the-NAME-attribute', "len(result) == 1 and result['CreationClassName'] is kv")],
+    raises=PARSE_ERR))
+
+# ---- CLASSNAME: the NAME attribute is the class name; the path has neither host nor namespace
+classname_init_c = Contract(
+    O + 'CIMClassName.__init__', trusted=True, raises={},
+    requires=[('classname-from-the-NAME-attribute', f"classname == {A}['NAME']"),
+              ('no-host-no-namespace', 'host is None and namespace is None')],
+    notes='source comment: "The following does not raise any exception" (a string class name)')
+CONTRACTS.append(Contract(
+    P + 'parse_classname', params={'self': TP, 'tup_tree': TNODE},
+    callees={'check_node': check_node_for('CLASSNAME', ('NAME',)), 'CIMClassName.__init__': classname_init_c},
+    opaque=['CIMClassName'],
+    ensures=[('a-CIMClassName', 'isinstance(result, CIMClassName)')],
+    raises=PARSE_ERR))
+
+# ---- NAMESPACE, HOST, LOCALNAMESPACEPATH, NAMESPACEPATH
+CONTRACTS.append(Contract(
+    P + 'parse_namespace', params={'self': TP, 'tup_tree': TNODE},
+    callees={'check_node': check_node_for('NAMESPACE', ('NAME',))},
+    ensures=[('the-NAME-attribute-unchanged', "result == tup_tree[1]['NAME']")],
+    raises=PARSE_ERR))
+CONTRACTS.append(Contract(
+    P + 'parse_host', label='character data in two chunks',
+    params={'self': TP, 'tup_tree': TupleOf(Str, MapOf('str', 'str'), TupleOf(Str, Str))},
+    callees={'check_node': check_node_for('HOST', ())},
+    ensures=[('the-character-data-unchanged', "result == tup_tree[2][0] + tup_tree[2][1]")],
+    raises=PARSE_ERR))
+namespaces_c = Contract(P + 'list_of_various', returns=ListOf('str'), raises=PARSE_ERR, trusted=True, returns_ghost='ns',
+                        requires=[('the-children-of-this-element', "tup_tree == caller_tup_tree and acceptable == ('NAMESPACE',)")],
+                        notes='one name per NAMESPACE child in document order, each from parse_namespace (above)')
+CONTRACTS.append(Contract(
+    P + 'parse_localnamespacepath', label='two components',
+    params={'self': TP, 'tup_tree': TNODE}, ghosts={'ns': TupleOf(Str, Str)},
+    callees={'check_node': check_node_for('LOCALNAMESPACEPATH', ()), 'list_of_various': namespaces_c},
+    ensures=[('the-components-joined-by-slash', "result == ns[0] + '/' + ns[1]")],
+    raises=PARSE_ERR))
+CONTRACTS.append(Contract(
+    P + 'parse_localnamespacepath', label='one component',
+    params={'self': TP, 'tup_tree': TNODE}, ghosts={'ns': TupleOf(Str)},
+    callees={'check_node': check_node_for('LOCALNAMESPACEPATH', ()), 'list_of_various': namespaces_c},
+    ensures=[('the-component-unchanged', "result == ns[0]")],
+    raises=PARSE_ERR))
+host_c = Contract(P + 'parse_host', returns=Str, raises=PARSE_ERR, trusted=True, returns_ghost='h',
+                  requires=[('HOST-is-the-first-child', 'tup_tree == caller_tup_tree[2][0]')])
+lnp_c = Contract(P + 'parse_localnamespacepath', returns=Str, raises=PARSE_ERR, trusted=True, returns_ghost='n',
+                 requires=[('LOCALNAMESPACEPATH-is-the-second-child', 'tup_tree == caller_tup_tree[2][1]')])
+CONTRACTS.append(Contract(
+    P + 'parse_namespacepath', params={'self': TP, 'tup_tree': TNODE}, ghosts={'h': Str, 'n': Str},
+    callees={'check_node': check_node_for('NAMESPACEPATH', ()), 'parse_host': host_c, 'parse_localnamespacepath': lnp_c},
+    ensures=[('host-and-namespace-unchanged-in-this-order', 'result[0] == h and result[1] == n and len(result) == 2')],
+    raises=PARSE_ERR))
+
+# ---- INSTANCENAME: the CLASSNAME attribute is the class name; the path has neither host nor namespace
+# Engine limits on the two paths with keys: "dict literal with symbolic key ... at `{None: val}`" (single unnamed key:
+# first child KEYVALUE or VALUE.REFERENCE) and "dict.update ... at `kbs.update(key_bind)`" (KEYBINDING children: the
+# one-item dictionaries of parse_keybinding have symbolic keys).  Only the keyless path is under contract.
+instancename_init_c = Contract(
+    O + 'CIMInstanceName.__init__', trusted=True, raises={},
+    notes='the keyless call is not guarded by try/except: with a string class name and no keybindings the constructor '
+          'is assumed not to raise (exception escape is the subject of C02)',
+    requires=[('classname-from-the-CLASSNAME-attribute', f"classname == {A}['CLASSNAME']"),
+              ('no-host-no-namespace', 'host is None and namespace is None'),
+              ('no-child-means-no-keybindings', 'len(keybindings) == 0')])
+CONTRACTS.append(Contract(
+    P + 'parse_instancename', label='keyless', params={'self': TP, 'tup_tree': TNODE},
+    requires=['len(tup_tree[2]) == 0'],
+    callees={'check_node': check_node_for('INSTANCENAME', ('CLASSNAME',)), 'CIMInstanceName.__init__': instancename_init_c},
+    opaque=['CIMInstanceName'],
+    ensures=[('a-CIMInstanceName', 'isinstance(result, CIMInstanceName)')],
+    raises=PARSE_ERR))
+
+# ---- LOCALCLASSPATH, LOCALINSTANCEPATH: a local path has a namespace and no host
+# (the namespace setter of the path classes, executed from its source, strips leading and trailing slashes; two
+# evaluations of strip('/') are not decided equal by either solver, so the statement is: a namespace without border
+# slashes arrives unchanged)
+classname_obj_c = Contract(P + 'parse_classname', returns=Obj('CIMClassName', _classname=Str, _host=Lit(None), _namespace=Lit(None)),
+                           raises=PARSE_ERR, trusted=True, returns_ghost=None,
+                           requires=[('CLASSNAME-is-the-second-child', 'tup_tree == caller_tup_tree[2][1]')],
+                           notes='parse_classname (above) hands host=None, namespace=None to the constructor')
+instancename_obj_c = Contract(P + 'parse_instancename',
+                              returns=Obj('CIMInstanceName', _classname=Str, _host=Lit(None), _namespace=Lit(None),
+                                          _keybindings=Ref('NocaseDict')),
+                              raises=PARSE_ERR, trusted=True,
+                              requires=[('INSTANCENAME-is-the-second-child', 'tup_tree == caller_tup_tree[2][1]')],
+                              notes='parse_instancename (above) hands host=None, namespace=None to the constructor')
+lnp_first_c = Contract(P + 'parse_localnamespacepath', returns=Str, raises=PARSE_ERR, trusted=True, returns_ghost='n',
+                       requires=[('LOCALNAMESPACEPATH-is-the-first-child', 'tup_tree == caller_tup_tree[2][0]')])
+for _func, _element, _callee, _callee_c in (('parse_localclasspath', 'LOCALCLASSPATH', 'parse_classname', classname_obj_c),
+                                            ('parse_localinstancepath', 'LOCALINSTANCEPATH', 'parse_instancename', instancename_obj_c)):
+    CONTRACTS.append(Contract(
+        P + _func, params={'self': TP, 'tup_tree': TNODE}, ghosts={'n': Str},
+        callees={'check_node': check_node_for(_element, ()), 'parse_localnamespacepath': lnp_first_c, _callee: _callee_c},
+        ensures=[('no-host', 'result.host is None'),
+                 ('the-namespace-of-the-LOCALNAMESPACEPATH-child', "implies(not n.startswith('/') and not n.endswith('/'), result.namespace == n)")],
+        raises=PARSE_ERR))
+
+# ---- CLASSPATH, INSTANCEPATH: host and namespace of the NAMESPACEPATH child arrive in the path object
+nsp_first_c = Contract(P + 'parse_namespacepath', returns=TupleOf(Str, Str), raises=PARSE_ERR, trusted=True, returns_ghost='hn',
+                       requires=[('NAMESPACEPATH-is-the-first-child', 'tup_tree == caller_tup_tree[2][0]')],
+                       notes='(host, namespace): parse_namespacepath (above)')
+for _func, _element, _callee, _callee_c in (('parse_classpath', 'CLASSPATH', 'parse_classname', classname_obj_c),
+                                            ('parse_instancepath', 'INSTANCEPATH', 'parse_instancename', instancename_obj_c)):
+    CONTRACTS.append(Contract(
+        P + _func, params={'self': TP, 'tup_tree': TNODE}, ghosts={'hn': TupleOf(Str, Str)},
+        callees={'check_node': check_node_for(_element, ()), 'parse_namespacepath': nsp_first_c, _callee: _callee_c},
+        ensures=[('the-host-of-the-NAMESPACEPATH-child', 'result.host == hn[0]'),
+                 ('the-namespace-of-the-NAMESPACEPATH-child',
+                  "implies(not hn[1].startswith('/') and not hn[1].endswith('/'), result.namespace == hn[1])")],
+        raises=PARSE_ERR))
+
+# ---- the two facts about the children that the contracts above use: proved here, not assumed
+NO_MATCH_EMPTY = "implies(forall(lambda k: tup_tree[2][k][0] not in matched, 0, len(tup_tree[2])), len(result) == 0)"
+parse_any_c = Contract(P + 'parse_any', returns=Ref('object'), raises=PARSE_ERR, trusted=True)
+for _matched in (('VALUE', 'VALUE.ARRAY'), ('VALUE.REFERENCE',), ('QUALIFIER',)):
+    CONTRACTS.append(Contract(
+        P + 'list_of_matching', label=f'matched={_matched!r}',
+        params={'self': TP, 'tup_tree': TNODE, 'matched': Lit(_matched)},
+        callees={'parse_any': parse_any_c},
+        kinds={'result': 'ref'},
+        loops={1: LoopSpec(target='child', modifies=['result'],
+                           invariant=[('nothing-matched-so-far-nothing-collected',
+                                       "implies(forall(lambda k: tup_tree[2][k][0] not in matched, 0, _i), len(result) == 0)")])},
+        ensures=[('no-matching-child-means-empty', NO_MATCH_EMPTY)],
+        raises=PARSE_ERR))
+list_of_matching_values_c = Contract(
+    P + 'list_of_matching', returns=ListOf(('union', 'str', ('ref', 'list'))), raises=PARSE_ERR,
+    ensures=[('no-matching-child-means-empty', NO_MATCH_EMPTY)],
+    notes="proved above (list_of_matching[matched=('VALUE', 'VALUE.ARRAY')])")
+CONTRACTS.append(Contract(
+    P + 'unpack_value', label='no value child', params={'self': TP, 'tup_tree': TNODE},
+    requires=["'TYPE' in tup_tree[1]",
+              "forall(lambda k: tup_tree[2][k][0] not in ('VALUE', 'VALUE.ARRAY'), 0, len(tup_tree[2]))"],
+    callees={'list_of_matching': list_of_matching_values_c,
+             'unpack_single_value': Contract(P + 'unpack_single_value', returns=Opt(Ref('value')), raises=PARSE_ERR, trusted=True)},
+    ensures=[('no-value-child-means-NULL', 'result is None')],
     raises=PARSE_ERR))
